@@ -297,7 +297,7 @@ func embed(h *harness, c *codec) {
 		}
 	})
 	// ill-shaped single escapes between text
-	var ill []string
+	var ill, illText []string // illText: only run between text (the tail oracle of the next family does not apply to them)
 	lower := func(s []byte) []byte { return bytes.ToLower(s) }
 	switch c.name {
 	case "Octal":
@@ -341,13 +341,20 @@ func embed(h *harness, c *codec) {
 			e := c.appendEsc(nil, r)
 			ill = append(ill, c.prefix+string(lower(e[2:])))
 		}
+		// a surrogate next to a unit just OUTSIDE the surrogate ranges (the ends of the range tests):
+		// no pair, the neighbour is an ordinary escape (mutation run: `n2 < 0xe000` -> `<= 0xe000`)
+		for _, a := range sur {
+			for _, b := range []uint32{0xD7FF, 0xE000, 0xE001, 0xFFFF, 0x0041, 0} {
+				illText = append(illText, string(c.appendEsc(c.appendEsc(nil, a), b)), string(c.appendEsc(c.appendEsc(nil, b), a)))
+			}
+		}
 	}
 	fi := &fam{name: "parse/ill-shaped-escape-in-text", codec: c.name,
-		space: fmt.Sprintf("b·X·b for %d escapes X outside the Format shape (out-of-range values, surrogate code points, unpaired / reversed / text-separated surrogates, lower-case digits)", len(ill))}
+		space: fmt.Sprintf("b·X·b for %d escapes X outside the Format shape (out-of-range values, surrogate code points, unpaired / reversed / text-separated surrogates, lower-case digits)", len(ill)+len(illText))}
 	h.addFam(fi)
 	h.shards(fi, 1, func(_ int, w *worker) {
 		var buf []byte
-		for _, x := range ill {
+		for _, x := range append(append([]string(nil), ill...), illText...) {
 			buf = append(append(append(buf[:0], 'b'), x...), 'b')
 			if _, cl := c.expectParse(nil, buf); cl != clJunk {
 				panic("harness: ill-shaped list contains a Format-shaped input: " + string(buf))
